@@ -878,24 +878,20 @@ func isTypeAssertOK(e edgeCond) bool {
 // paramRoot: name of the parameter a value comes from, through phis whose
 // other inputs are nil.
 func paramRoot(v ssa.Value) string {
-	switch x := v.(type) {
-	case *ssa.Parameter:
-		return x.Name()
-	case *ssa.Phi:
-		name := ""
-		for _, e := range x.Edges {
-			if c, ok := e.(*ssa.Const); ok && c.IsNil() {
-				continue
-			}
-			n := paramRoot(e)
-			if n == "" || (name != "" && n != name) {
-				return ""
-			}
-			name = n
+	// through phis and through small helpers that return their argument or nil (`nilIfEmpty(list)`)
+	name := ""
+	for _, lf := range valueLeaves(v, nil, 0) {
+		w := core.Strip(lf.Rs.R(lf.V))
+		if c, ok := w.(*ssa.Const); ok && c.IsNil() {
+			continue
 		}
-		return name
+		prm, ok := w.(*ssa.Parameter)
+		if !ok || (name != "" && prm.Name() != name) {
+			return ""
+		}
+		name = prm.Name()
 	}
-	return ""
+	return name
 }
 
 func subjectHasPrefix(v ssa.Value, pfx string) bool {
